@@ -40,6 +40,10 @@ def run_cases(cases, res, stratum):
             obs['ctor_real'] = None if yr is None else (yr.dtype, yr.get_dtype('fxp'), bool(np_iscomplex(yr)))
             if cx:
                 cr = fx.Fxp(1 + 2j, s, n, nf); cr(0.5); obs['complex_then_real'] = (cr.dtype, cr.get_dtype('fxp'), bool(np_iscomplex(cr)))
+                if n <= 52 and (n >= 2 or not s):
+                    # an object holding real values becomes complex by an ELEMENT write: its dtype string says so at once
+                    xe = fx.Fxp([0, 0], s, n, nf); xe[0] = 1j * 2.0 ** (-nf)
+                    obs['elem_complex'] = (xe.dtype, bool(np_iscomplex(xe)))
             # the second parser of dtype strings (utils.get_sizes_from_dtype, reached through fxp_sum(dtype=...))
             try:
                 sm = fx.fxp_sum(fx.Fxp([0, 0], s, n, nf), dtype=fxp_str(s, n, nf, cx)); obs['sum_dtype'] = (bool(sm.signed), int(sm.n_word), int(sm.n_frac))
@@ -92,6 +96,8 @@ def run_cases(cases, res, stratum):
             res.fail(dict(c, spelling=bads[0][0]), 'C12: fxp_sum(dtype=<spelling>) (the second dtype parser) does not give the format the spelling denotes', expected=(s, n, nf), got=bads[0][1]); k += len(obs['parse']); continue
         if obs['sum_dtype'] != (s, n, nf):
             res.fail(c, 'C12: fxp_sum(dtype=x.dtype) (utils.get_sizes_from_dtype) does not reproduce the format', expected=(s, n, nf), got=obs['sum_dtype']); k += len(obs['parse']); continue
+        if obs.get('elem_complex') is not None and obs['elem_complex'] != (fxp_str(s, n, nf, True), True):
+            res.fail(c, 'C12: after a complex element was written into an object of real values its dtype string does not carry the complex suffix (stale attribute)', expected=(fxp_str(s, n, nf, True), True), got=obs['elem_complex']); k += len(obs['parse']); continue
         if obs.get('ctor_real') is not None and ('complex' in obs['ctor_real'][0]) != cx:
             res.fail(c, 'C12: constructing with dtype=<string> and a real value does not reproduce the format the string denotes (the complex suffix)', expected=fxp_str(s, n, nf, cx), got=obs['ctor_real']); k += len(obs['parse']); continue
         for key in ('ctor_real', 'complex_then_real'):
